@@ -634,8 +634,10 @@ let c08 (payload : string) : string =
   let toks = split_on ' ' payload in
   let msgs : (int, message) Hashtbl.t = Hashtbl.create 16 in
   let sched = ref [] in
+  let nowrite = ref [] in   (* threads whose transport write goes to another (dead) connection: Get; Fill; Put *)
   List.iter (fun t ->
     match String.split_on_char ';' t with
+    | ["X"; id] -> nowrite := int_of_string id :: !nowrite
     | ["M"; id; h; sp; sm; meta; pl] ->
       let pl = (match String.split_on_char '~' pl with
         | [a; n; b] -> bytes_of_hex a @ List.init (int_of_string n) (fun _ -> n_of_int 0x78) @ bytes_of_hex b
@@ -652,7 +654,8 @@ let c08 (payload : string) : string =
   let env = (fun _ -> None) in
   let empty = { m_hdr = bytes_of_hex "080000000000000000000000"; m_path = []; m_meth = []; m_meta = []; m_payload = [] } in
   let msg (t : nat) = (match Hashtbl.find_opt msgs (int_of_nat t) with Some m -> m | None -> empty) in
-  let s = wrun env msg (fun _ -> [OGet; OFill; OWrite; OPut]) (List.rev !sched) in
+  let s = wrun env msg (fun t -> if List.mem (int_of_nat t) !nowrite then [OGet; OFill; OPut] else [OGet; OFill; OWrite; OPut])
+      (List.rev !sched) in
   let frames = String.concat "," (List.map (fun t ->
       let m = msg t in
       let l = int_of_n (encode_len env m) in
